@@ -95,14 +95,6 @@ theorem readErr_settle (T : Tables) (hacc : readErr T = none) :
       repeat' split at hacc
       all_goals first | omega | cases hacc
 
-theorem readErr_glyf (T : Tables) (hacc : readErr T = none) (h : T.scalerCFF = false) :
-    T.outline.emptyGlyf = false := by
-  unfold readErr at hacc
-  split at hacc
-  · cases hacc
-  · rename_i hc
-    simpa [h] using hc
-
 theorem mergeOutline_widths_length (T : Tables) (hacc : readErr T = none)
     (hc : ∀ l, T.outline.widths = some l → l.length = T.outline.numGlyphs) :
     ∀ l, (mergeOutline T).widths = some l → l.length = (mergeOutline T).numGlyphs := by
@@ -115,8 +107,12 @@ theorem mergeOutline_widths_length (T : Tables) (hacc : readErr T = none)
   generalize maxp.getD 0 = n0 at *
   cases hmtx with
   | none =>
-    simp at hl
-    exact hc l hl.2
+    cases scaler
+    · simp at hl
+      subst hl
+      simp
+    · simp at hl
+      exact hc l hl
   | some h =>
     simp only at hl hs
     generalize h.widths = ws at *
@@ -130,6 +126,8 @@ theorem mergeOutline_widths_length (T : Tables) (hacc : readErr T = none)
       · simp only [hpos, if_false] at hl
         cases scaler
         · simp at hl
+          subst hl
+          simp
         · exact hc l (by simpa using hl)
     · simp only [ne_eq, h0, not_false_eq_true, if_true, if_false, List.length_take] at hl hs
       by_cases hpos : min n0 ws.length > 0
@@ -144,19 +142,14 @@ theorem mergeOutline_widths_length (T : Tables) (hacc : readErr T = none)
       · simp only [hpos, if_false] at hl
         cases scaler
         · simp at hl
+          subst hl
+          simp
         · exact hc l (by simpa using hl)
 
 theorem inDomain_merge' (T : Tables) (hacc : readErr T = none)
     (hc : ∀ l, T.outline.widths = some l → l.length = T.outline.numGlyphs) : InDomain (merge T) := by
-  refine ⟨?_, ?_, merge_version_lt T⟩
-  · rw [merge_outline]; exact mergeOutline_widths_length T hacc hc
-  · rw [merge_outline]
-    intro hk
-    have : T.scalerCFF = false := by
-      cases hsc : T.scalerCFF
-      · rfl
-      · simp [mergeOutline, hsc] at hk
-    exact readErr_glyf T hacc this
+  refine ⟨?_, merge_version_lt T⟩
+  rw [merge_outline]; exact mergeOutline_widths_length T hacc hc
 
 theorem verOfDecimal_lt (n k : Nat) : verOfDecimal n k < 4294967296 := by
   unfold verOfDecimal
@@ -358,8 +351,8 @@ theorem merge_script_ok (T : Tables) : (merge T).isScript = true → (merge T).i
     simp only [classIsScript, classIsSerif, decide_eq_true_eq, decide_eq_false_iff_not]
     omega
 
-theorem mergeOutline_widthsEmpty (T : Tables) (hk : (mergeOutline T).kind = .glyf) :
-    (mergeOutline T).widths ≠ some [] := by
+theorem mergeOutline_widthsGlyf (T : Tables) (hk : (mergeOutline T).kind = .glyf) :
+    (mergeOutline T).widths ≠ none := by
   cases hsc : T.scalerCFF
   · simp only [mergeOutline, hsc]
     generalize hmtxWidths T = hw
@@ -504,7 +497,7 @@ theorem canonical_merge (T : Tables) (hacc : readErr T = none) (hd : Decoded T) 
   script := merge_script_ok T
   widths := (stableF_of T hd hs).widths
   widthsNone := (stableF_of T hd hs).widthsNone
-  widthsEmpty := by rw [merge_outline]; exact mergeOutline_widthsEmpty T
+  widthsGlyf := by rw [merge_outline]; exact mergeOutline_widthsGlyf T
   gsub := merge_gsub_ok T
 
 /-- for accepted, decoder-produced table sets outside the excluded classes, re-writing and
@@ -651,7 +644,7 @@ theorem nfOutline_widths_ok (o : Outline) :
     exact ⟨_, rfl, toInt16_range _⟩
   · rw [if_neg hpos]
     cases kind
-    · exact replicate_zero_ok n
+    · intro w hw; cases hw
     · cases widths with
       | none => exact replicate_zero_ok n
       | some l =>
@@ -670,8 +663,8 @@ theorem nfOutline_widthsNone (o : Outline) (h : ∀ l, o.widths = some l → l.l
   · have : n > 0 := by omega
     simp [this]
 
-theorem nfOutline_widthsEmpty (o : Outline) (hk : (nfOutline o).kind = .glyf) :
-    (nfOutline o).widths ≠ some [] := by
+theorem nfOutline_widthsGlyf (o : Outline) (hk : (nfOutline o).kind = .glyf) :
+    (nfOutline o).widths ≠ none := by
   obtain ⟨kind, n, widths, heights, glyphs, eg, cm, hb, gh, gx, sl⟩ := o
   simp only [nfOutline, List.length_map] at hk ⊢
   subst hk
@@ -679,7 +672,7 @@ theorem nfOutline_widthsEmpty (o : Outline) (hk : (nfOutline o).kind = .glyf) :
   cases wl <;> simp
 
 theorem canonical_nf (F : FontMeta) (h : InDomain F) : Canonical (nf F) where
-  version := nfVersion_idem F.version h.2.2
+  version := nfVersion_idem F.version h.2
   ctime := decode_encode_idem _
   mtime := decode_encode_idem _
   perm := nf_perm_range F
@@ -695,7 +688,7 @@ theorem canonical_nf (F : FontMeta) (h : InDomain F) : Canonical (nf F) where
   script := nf_script_ok F
   widths := nfOutline_widths_ok F.outline
   widthsNone := nfOutline_widthsNone F.outline h.1
-  widthsEmpty := nfOutline_widthsEmpty F.outline
+  widthsGlyf := nfOutline_widthsGlyf F.outline
   gsub := nf_gsub_ok F
 
 theorem nf_idem (F : FontMeta) (h : InDomain F) : nf (nf F) = nf F :=
